@@ -826,6 +826,47 @@ fn c03(thorough: bool) -> Suite {
         }
     }
     ps.extend(three_sends("c03-3sends", thorough, Class::P));
+    // two pending operations of one thread (their order in the wait list is
+    // fixed) served by the other thread
+    ps.extend(product(
+        "c03-two-pending-s",
+        &[
+            vec![vec![Op::FSend(0), Op::Poll(0, 0), Op::FSend(1), Op::Poll(1, 0), Op::Set(0), Op::Wait(1), Op::Poll(0, 0), Op::Poll(1, 0)]],
+            vec![
+                vec![Op::Wait(0), Op::Recv, Op::Set(1)],
+                vec![Op::Wait(0), Op::TryRecv, Op::TryRecv, Op::Set(1)],
+                vec![Op::Wait(0), Op::Drain(VecState::Empty), Op::Set(1)],
+                vec![Op::Wait(0), Op::RecvT(1), Op::Len(Side::R), Op::Set(1)],
+            ],
+        ],
+        &[Cap::B(0), Cap::B(1)],
+        &[Class::P],
+        &[vec![(A, A), (S, S)], vec![(A, A), (A, A)]],
+        &[(S, Conv::Clone)],
+        &[env(2, 1, None, UNB)],
+        false,
+    ));
+    ps.extend(product(
+        "c03-two-pending-r",
+        &[
+            vec![
+                vec![Op::Wait(0), Op::Send, Op::Set(1)],
+                vec![Op::Wait(0), Op::TrySend, Op::TrySend, Op::Set(1)],
+                vec![Op::Wait(0), Op::SendT(1), Op::Len(Side::S), Op::Set(1)],
+            ],
+            vec![
+                vec![Op::FRecv(0), Op::Poll(0, 0), Op::FRecv(1), Op::Poll(1, 0), Op::Set(0), Op::Wait(1), Op::Poll(0, 0), Op::Poll(1, 0)],
+                vec![Op::FRecv(0), Op::Poll(0, 0), Op::FRecv(1), Op::Poll(1, 0), Op::FDrop(0), Op::Set(0), Op::Wait(1), Op::Poll(1, 0)],
+                vec![Op::FRecv(0), Op::Poll(0, 0), Op::RecvT(1), Op::Set(0), Op::Wait(1), Op::Poll(0, 0)],
+            ],
+        ],
+        &[Cap::B(0), Cap::B(1)],
+        &[Class::P],
+        &[vec![(S, S), (A, A)], vec![(A, A), (A, A)]],
+        &[(S, Conv::Clone)],
+        &[env(2, 1, None, UNB)],
+        false,
+    ));
     // the stream
     ps.extend(product(
         "c03-stream",
@@ -1112,6 +1153,41 @@ fn c06(thorough: bool) -> Suite {
             false,
         ));
     }
+    // two waiting receivers (senders), the older one is cancelled, then the
+    // counterpart arrives: the remaining waiter must be served
+    ps.extend(product(
+        "c06-cancel-one-of-two",
+        &[
+            vec![vec![Op::Wait(0), Op::Send, Op::Set(1)], vec![Op::Wait(0), Op::SendRepoll, Op::Set(1)], vec![Op::Wait(0), Op::SendT(3), Op::Set(1)]],
+            vec![
+                vec![Op::FRecv(0), Op::Poll(0, 0), Op::FRecv(1), Op::Poll(1, 0), Op::FDrop(0), Op::Set(0), Op::Wait(1), Op::Poll(1, 0)],
+                vec![Op::FRecv(0), Op::Poll(0, 0), Op::RecvT(1), Op::Set(0), Op::Wait(1), Op::Poll(0, 0)],
+                vec![Op::FRecv(0), Op::Poll(0, 0), Op::FRecv(1), Op::Poll(1, 0), Op::FDrop(1), Op::Set(0), Op::Wait(1), Op::Poll(0, 0)],
+            ],
+        ],
+        &[Cap::B(0), Cap::B(1)],
+        &[Class::L],
+        &[vec![(S, S), (A, A)], vec![(A, A), (A, A)]],
+        &[(S, Conv::Clone)],
+        &[env(2, 1, None, UNB)],
+        false,
+    ));
+    ps.extend(product(
+        "c06-cancel-one-of-two-s",
+        &[
+            vec![
+                vec![Op::FSend(0), Op::Poll(0, 0), Op::FSend(1), Op::Poll(1, 0), Op::FDrop(0), Op::Set(0), Op::Wait(1), Op::Poll(1, 0)],
+                vec![Op::FSend(0), Op::Poll(0, 0), Op::SendT(1), Op::Set(0), Op::Wait(1), Op::Poll(0, 0)],
+            ],
+            vec![vec![Op::Wait(0), Op::Recv, Op::Set(1)], vec![Op::Wait(0), Op::RecvRepoll, Op::Set(1)], vec![Op::Wait(0), Op::RecvT(3), Op::Set(1)]],
+        ],
+        &[Cap::B(0)],
+        &[Class::L],
+        &[vec![(A, A), (S, S)], vec![(A, A), (A, A)]],
+        &[(S, Conv::Clone)],
+        &[env(2, 1, None, UNB)],
+        false,
+    ));
     // a pending future re-polled with another waker before the peer has done
     // anything must come back Pending (the peer waits for this thread)
     ps.extend(product(
@@ -1879,6 +1955,39 @@ fn c13(thorough: bool) -> Suite {
         &sync_only(2),
         &[(S, Conv::Clone)],
         &[env(2, 1, None, pb2(thorough))],
+        false,
+    ));
+    // a timed operation expiring next to another waiter of the same kind
+    ps.extend(product(
+        "c13-next-to-waiter",
+        &[
+            vec![vec![Op::Wait(0), Op::TrySend, Op::Set(1)], vec![Op::Wait(0), Op::Send, Op::Set(1)]],
+            vec![
+                vec![Op::FRecv(0), Op::Poll(0, 0), Op::RecvT(1), Op::Set(0), Op::Wait(1), Op::Poll(0, 0)],
+                vec![Op::FRecv(0), Op::Poll(0, 0), Op::FRecv(1), Op::Poll(1, 0), Op::RecvT(2), Op::Set(0), Op::Wait(1), Op::Poll(0, 0), Op::Poll(1, 0)],
+            ],
+        ],
+        &[Cap::B(0), Cap::B(1)],
+        &[Class::DL, Class::DP],
+        &[vec![(S, S), (A, A)]],
+        &[(S, Conv::Clone)],
+        &[env(2, 1, None, UNB)],
+        false,
+    ));
+    ps.extend(product(
+        "c13-next-to-waiter-s",
+        &[
+            vec![
+                vec![Op::FSend(0), Op::Poll(0, 0), Op::SendT(1), Op::Set(0), Op::Wait(1), Op::Poll(0, 0)],
+                vec![Op::FSend(0), Op::Poll(0, 0), Op::SendOT(2), Op::Set(0), Op::Wait(1), Op::Poll(0, 0)],
+            ],
+            vec![vec![Op::Wait(0), Op::TryRecv, Op::Set(1)], vec![Op::Wait(0), Op::Recv, Op::TryRecv, Op::Set(1)]],
+        ],
+        &[Cap::B(0)],
+        &[Class::DL, Class::DP],
+        &[vec![(A, A), (S, S)]],
+        &[(S, Conv::Clone)],
+        &[env(2, 1, None, UNB)],
         false,
     ));
     ps.extend(product(
